@@ -119,7 +119,7 @@ prop('C15', engine='schedsim', profiles={'quick': [('sched', 4000)], 'thorough':
      extra_coverage=lambda recs: {'distinct_interleavings': len({tuple(r.get('states') or []) for r in recs})})
 ASSUME_PMAP = ['f is gate-controlled: a call completes only when the controller releases it; in-flight sets follow the documented semantics '
                '(FIFO start, `threads` workers, chunk after chunk); real ThreadPoolExecutor and asyncio loop, tqdm stubbed']
-prop('C17', engine='pmapsim', profiles={'quick': [('pmap', 6000), ('pmapzone', 16)], 'thorough': [('pmap', 200000), ('pmapzone', 64)]}, level='exploration',
+prop('C17', engine='pmapsim', profiles={'quick': [('pmap', 6000), ('pmaplarge', 40), ('pmapzone', 16)], 'thorough': [('pmap', 200000), ('pmaplarge', 400), ('pmapzone', 64)]}, level='exploration',
      nontrivial=lambda r: r['stats'].get('out_of_order', 0) > 0,
      assumptions_override=ASSUME_PMAP,
      rule='seeded (n, threads, chunksize, sort, bar, input kind, raising element, output kind) x seeded completion order of the in-flight worker calls; '
@@ -222,7 +222,7 @@ def zone_of(pid, scn, discs):
 
 
 SELFTEST = [('storesim', p) for p in ('c01', 'c02', 'c04', 'c05', 'c06', 'c07', 'c12', 'c13', 'c18', 'c20')] + \
-           [('cachesim', 'c14'), ('cachesim', 'c16'), ('schedsim', 'sched'), ('pmapsim', 'pmap')]
+           [('cachesim', 'c14'), ('cachesim', 'c16'), ('schedsim', 'sched'), ('pmapsim', 'pmap'), ('pmapsim', 'pmaplarge')]
 
 
 def digests(engine_name, profile, seed, n, workers):
